@@ -181,6 +181,18 @@ def check_case(case):
                 o3, exc3 = core.guarded(utils.format_datetime, c) if exc is None else (None, exc)
                 if exc3 is not None or o3 != out:
                     fails.append(("copy-written-differently:" + how, "%s of the parsed value of %r (%s/%s) is written %r, the value itself %r" % (how, val, prec, cons, o3 if exc3 is None else core.fmt_exc(exc3), out)))
+            # values derived with datetime's own methods (replace, arithmetic) are plain results of the base class; whatever they are
+            # written as, a copy of them is written the same way
+            import datetime as _dt
+            for how, fn in (("replace", lambda v: v.replace(second=v.second)), ("plus-zero", lambda v: v + _dt.timedelta(0))):
+                d, exc = core.guarded(fn, parsed)
+                if exc is not None:
+                    continue
+                o4, e4 = core.guarded(utils.format_datetime, d)
+                c, e5 = core.guarded(copy.deepcopy, d)
+                o5, e6 = core.guarded(utils.format_datetime, c) if e5 is None else (None, e5)
+                if e4 is None and (e6 is not None or o5 != o4):
+                    fails.append(("copy-of-derived-value:" + how, "deepcopy of parsed(%r).%s is written %r, the derived value itself %r" % (val, how, o5 if e6 is None else core.fmt_exc(e6), o4)))
     return fails
 
 
